@@ -24,7 +24,7 @@ func c06Cases(level int) []SCase {
 	var out []SCase
 	mins := []any{nil, 1, 2}
 	maxs := []any{nil, 3, 2}
-	pats := []any{nil, "^a", "^[a-cé]{2,3}$"}
+	pats := []any{nil, "^a", "^[a-cé]{2,3}$", "^[0-9a]{1,3}%$"}
 	if level >= 1 {
 		mins = append(mins, 0, 3)
 		maxs = append(maxs, 0, 1, 4)
@@ -82,5 +82,8 @@ func c06Cases(level int) []SCase {
 		out = append(out, SCase{ID: fmt.Sprintf("C06/same-type-name/two-defs/%d", i), Cfg: baseCfg(), Axes: map[string]string{"pos": "same-type-name", "leaf": fmt.Sprint(i)},
 			Schema: J{"type": "object", "properties": J{"x": J{"$ref": "#/$defs/limits"}, "y": J{"$ref": "#/$defs/Limits"}}, "$defs": J{"limits": mk(pair[0]), "Limits": mk(pair[1])}}})
 	}
+	out = append(out, collisionTriples("C06", func(i int) J {
+		return []J{{"type": "string", "minLength": 2, "maxLength": 4}, {"type": "string", "minLength": 5, "maxLength": 8, "pattern": "^[a-c]+$"}, {"type": "string", "pattern": "^Z"}}[i]
+	}, false)...)
 	return out
 }
